@@ -558,7 +558,7 @@ class Ctx:
             with open(f, "rb") as fh:
                 for ln in fh:
                     nev += 1
-                    if ln.startswith(b'{"k":0,') or ln.startswith(b'{"op":"reset"') or ln.startswith(b'{"e":"Reset"') or ln.startswith(b'{"e":"reset"'):
+                    if ln.startswith(b'{"k":0,') or ln.startswith(b'{"objs"') or ln.startswith(b'{"sum"') or ln.startswith(b'{"op":"reset"') or ln.startswith(b'{"e":"Reset"') or ln.startswith(b'{"e":"reset"'):
                         nex += 1
         self.evaluations += nev
         self._rec_exec = getattr(self, "_rec_exec", 0) + nex
@@ -637,7 +637,7 @@ def derive_seed(seed, *parts):
     return int(h[:8], 16) & 0x7FFFFFFF
 
 
-def replay_recorded(path, lib, hname, hsrcs, trace_spec, cfg, extra_args=()):
+def replay_recorded(path, lib, hname, hsrcs, trace_spec, cfg, extra_args=(), xss=None, dfs=False):
     """--replay for V-direction violations: either a stored (rejected) trace, which is validated again, or a
     recorder crash descriptor {recorder, seed, events, args}, which is re-recorded and validated."""
     tmp = os.path.join(BUILD, "tmp", "replay-%d" % os.getpid())
@@ -655,7 +655,7 @@ def replay_recorded(path, lib, hname, hsrcs, trace_spec, cfg, extra_args=()):
             if p.returncode != 0:
                 print("recorder failed again with exit %d (seed %s): violation reproduced" % (p.returncode, info["seed"]))
                 return 1
-        r = tlc(trace_spec, cfg, workers=1, timeout=1800, env={"TRACE": trace})
+        r = tlc(trace_spec, cfg, workers=1, timeout=1800, env={"TRACE": trace}, xss=xss, dfs=dfs)
         if r.rc == 0:
             print("trace accepted by %s" % trace_spec)
             return 0
